@@ -273,6 +273,7 @@ func main() {
 	maxReq := flag.Int("maxreq", 3000, "max requests per run")
 	delayMs := flag.Int("delay", 300, "exit delay in ms for complete runs")
 	par := flag.Int("par", 12, "runs in parallel")
+	only := flag.Int("only", -1, "run only the case with this index (same seed, same script)")
 	flag.Parse()
 	r := hlib.NewRand(*seed)
 	workers := []int{1, 2, 7, 100, 1000}
@@ -311,6 +312,9 @@ func main() {
 	sem := make(chan struct{}, *par)
 	var wg sync.WaitGroup
 	for i := range jobs {
+		if *only >= 0 && *only != i {
+			continue
+		}
 		wg.Add(1)
 		sem <- struct{}{}
 		go func(j job) {
@@ -323,6 +327,9 @@ func main() {
 	w := hlib.NewOut(*outp)
 	defer w.Close()
 	for i := range res {
+		if *only >= 0 && *only != i {
+			continue
+		}
 		res[i].Goroutines = 0 // not meaningful when runs overlap
 		w.Put(res[i])
 	}
